@@ -34,7 +34,8 @@ def run(chk, ctx) -> None:
     # "when the deck cannot cover a stud street": what can be dealt - asked without a count - is the deck plus the reshuffled reserve
     from .c06 import _engine_cards
     from .helpers import Refile
-    _engine_cards(Refile(chk, {'C06.engine_cards': 'C10.setup'}, only=lambda r, c: c == 'State.get_dealable_cards'), ctx)
+    from .helpers import foreign
+    foreign(chk, _engine_cards, Refile(chk, {'C06.engine_cards': 'C10.setup'}, only=lambda r, c: c == 'State.get_dealable_cards'), ctx)
 
 
 def _setup(chk, ctx) -> None:
